@@ -30,8 +30,16 @@ MARKERS = ["nan", "none", "masked-nan", "masked-finite"]
 G, U, S, F, M = 1, 2, 3, 4, 9
 
 
-def carrier(vals, miss, marker, poison=1.0):
-    """vals: floats; miss: bools"""
+POISONS = [1.0, 100.0, -50.0, 0.0, 1.75]
+
+
+def carrier(vals, miss, marker, poison=None):
+    """vals: floats; miss: bools.  masked-finite hides GOOD-, SUSPECT- and FAIL-looking values
+    under the mask (rotating with the case), so reading under a mask shows up whatever the rule."""
+    if poison is None:
+        poison = POISONS[(len(vals) + sum(miss)) % len(POISONS)]
+    elif marker == "masked-finite":
+        poison = poison + [0.0, 40.0, -40.0][(len(vals) + sum(miss)) % 3]
     if marker == "nan":
         return np.array([np.nan if m else v for v, m in zip(vals, miss)], dtype=float)
     if marker == "none":
